@@ -128,6 +128,13 @@ Proof.
   split; [exists 300%Z; split; [reflexivity|cbn; lia]|vm_compute; repeat constructor].
 Qed.
 
+(* ---- tie to the source: Gen/Funcs.v is TRANSLATED from the Go code by tools/gotrans on every run *)
+From GoMC Require Gen.Funcs Proofs.C06_tie.
+Theorem C06_position_pack_translated : forall x y z : Z, Funcs.packet_Position_WriteTo_position x z y = Z.of_N (pos_pack x y z).
+Proof. exact C06_tie.tie_pos_pack. Qed.
+Theorem C06_position_unpack_translated : forall v : Z, (- 2 ^ 63 <= v < 2 ^ 63)%Z -> pos_unpack v = VPos (Funcs.packet_Position_ReadFrom_x v) (Funcs.packet_Position_ReadFrom_y v) (Funcs.packet_Position_ReadFrom_z v).
+Proof. exact C06_tie.tie_pos_unpack. Qed.
+
 Print Assumptions C06_roundtrip.
 Print Assumptions C06_layout.
 Print Assumptions C06_position_layout.
@@ -144,3 +151,5 @@ Print Assumptions C06_compose.
 Print Assumptions C06_scan_no_panic.
 Print Assumptions C06_fixedbitset.
 Print Assumptions C06_plugin.
+Print Assumptions C06_position_pack_translated.
+Print Assumptions C06_position_unpack_translated.
